@@ -34,6 +34,7 @@ HEADER_REGIONS = [(0, 8, "magic"), (8, 12, "checksum"), (12, 32, "signature"), (
 
 _CALLS = [0]
 _WRAPPED = [False]
+STEP_BUDGET = 300_000      # pristine files of this size need < 20 000 steps; a rejection needs a few hundred
 
 
 def _wrap_cm():
@@ -94,8 +95,10 @@ def files_for(seed, tier):
 def check_one(buf):
     """-> (verdict, detail): 'rejected' | 'accepted' | 'late-reject'"""
     _CALLS[0] = 0
-    res = iosim.parse("dex", buf, keep_log=True, clock=False)
+    res = iosim.parse("dex", buf, keep_log=True, clock=True, budget=STEP_BUDGET)
     oc = res["outcome"]
+    if oc in ("loop", "inconclusive"):
+        return "hang", "%s in %s after %d steps" % (oc, res["where"] or res["owner"], res["steps"])
     outside = None
     for sid, pos, asked, got in res["log"]:
         if sid != 1:
@@ -149,6 +152,27 @@ def header_faults(r, raw):
         b = bytearray(raw)
         struct.pack_into("<I", b, 36, v)
         out.append((["header_size", v], fix_adler(b), v != 0x70))
+    # each wrong field again on top of a VALID variation of the magic (other version digits, dey): the rejection of a wrong
+    # header size / endian tag / checksum must not depend on the version
+    for ver in (b"036", b"037", b"038", b"039", b"040", b"041", b"042", b"100", b"999", b"0a0"):
+        for kind in ("header_size", "endian_tag", "checksum"):
+            b = bytearray(raw)
+            b[4:7] = ver
+            if r.random() < 0.3:
+                b[2] = 0x79
+            if kind == "header_size":
+                v = r.choice([0x78, 0x78, 0x6C, 0x74, 0x80, 0x71, 0])
+                struct.pack_into("<I", b, 36, v)
+                out.append((["combo", ver.decode(), b[2], "header_size", v], fix_adler(b), True))
+            elif kind == "endian_tag":
+                v = r.choice([0x78563412, 0x12345679, 0])
+                struct.pack_into("<I", b, 40, v)
+                out.append((["combo", ver.decode(), b[2], "endian_tag", v], fix_adler(b), True))
+            else:
+                i = r.randrange(8, 12)
+                b = bytearray(fix_adler(b))
+                b[i] ^= 1 << r.randrange(8)
+                out.append((["combo", ver.decode(), b[2], "checksum", i, b[i]], bytes(b), True))
     # checksum field itself
     for i in range(8, 12):
         for v in sorted({raw[i] ^ 1, raw[i] ^ 0x80, raw[i] ^ 0xFF, r.randrange(256)}):
@@ -217,7 +241,7 @@ def worker(seed):
         if verdict == "rejected":
             exc_kinds[detail] = exc_kinds.get(detail, 0) + 1
             continue
-        sig = f"C09:{verdict}:header-field:{desc[0]}"
+        sig = f"C09:{verdict}:header-field:{desc[3] if desc[0] == 'combo' else desc[0]}"
         if sig not in problems:
             problems[sig] = {"msg": f"{name}: header fault {desc}: {verdict} ({detail})", "fault": ["header"] + desc}
     case = {"seed": seed, "src": src, "by_sig": {s: p["fault"] for s, p in problems.items()}} if problems else None
@@ -243,6 +267,19 @@ def _apply(raw, fault):
         b[fault[1]] = fault[2]
         return bytes(b)
     kind = fault[1]
+    if kind == "combo":
+        _, _, ver, m2, field = fault[:5]
+        b[4:7] = ver.encode()
+        b[2] = m2
+        if field == "header_size":
+            struct.pack_into("<I", b, 36, fault[5])
+            return fix_adler(b)
+        if field == "endian_tag":
+            struct.pack_into("<I", b, 40, fault[5])
+            return fix_adler(b)
+        b = bytearray(fix_adler(b))
+        b[fault[5]] = fault[6]
+        return bytes(b)
     if kind in ("magic", "checksum"):
         b[fault[2]] = fault[3]
         return bytes(b)
@@ -263,7 +300,7 @@ def _sig(raw, fault):
         return None, detail
     if fault[0] == "byte":
         return f"C09:{verdict}:{region_of(raw, fault[1])}", detail
-    return f"C09:{verdict}:header-field:{fault[1]}", detail
+    return f"C09:{verdict}:header-field:{fault[5 - 1] if fault[1] == 'combo' else fault[1]}", detail
 
 
 def minimise(case, sig):
